@@ -37,3 +37,17 @@ package gocty
 //@   ensures[C18] no_invented_infinity: (=> (and (= result nil.Any) (not (= (bf.accf64 c) 0))) (not (f64_isinf (bf.f64 c))))
 //@   ensures[C18] exact_or_rounded: (=> (= result nil.Any) (= (select $H<F64> (reflect.Value.ptr target)) (ite (= (rv_kind target) 13) (f64.to_f32 (bf.f64 c)) (bf.f64 c))))
 //@   ensures[C18] no_silent_overflow: (=> (and (= result nil.Any) (not (f64_isinf (bf.f64 c)))) (not (f64_isinf (select $H<F64> (reflect.Value.ptr target)))))
+//
+// FromCtyValue as the stdlib index arithmetic uses it: a number into a *int target. The reflection
+// walk from the interface target down to fromCtyNumberInt (proved above for every width) is not under
+// contract (assumed: an unmarked number value reaches fromCtyNumberInt with the 64-bit int the pointer
+// refers to; null and unknown values are refused with an error; nothing else is written).
+//@ func gocty.FromCtyValue
+//@   trusted
+//@   requires (and (wf_deep val) (not (is_marked val)) (is_number_ty (vty val)) ((_ is box<*int>) target) (not (= (unbox<*int> target) 0)))
+//@   writes Int (unbox<*int> target)
+//@   let c (bf_of val)
+//@   let p (unbox<*int> target)
+//@   ensures (= (= result nil.Any) (and (kn val) (= (bf.acc64 c) 0)))
+//@   ensures (=> (= result nil.Any) (= (select $H<Int> p) (bf.int64 c)))
+//@   ensures (=> (not (= result nil.Any)) (= (select $H<Int> p) (select (old $H<Int>) p)))
